@@ -461,6 +461,63 @@ def run(ctx, extra_defs=()):
     ctx.check(bool(dts) and any(f.bcallee(i) == TP + '::stop' for f in dts for i in f.calls()), R13, '~thread_pool:stops-the-workers', 'destroying the pool does not stop and join its workers', dts[0].where if dts else st.where)
     ctx.floor(R13, 14)
 
+    # ---- R14 teardown of a device cancels what is pending on it; the connect adapter hands on every error of the wait
+    R14 = ctx.rule('C17.R14', 'basic_io_device::close(ec) reaches cancel() for every open device attached to a loop, whether or not the device owns its descriptor (a pending handler of a non-owning device must still be '
+                              'completed with `canceled`); async_connect\'s completion adapter passes the error of the wait to the user\'s handler for every error except exactly select_failed, compared as a whole '
+                              'error code, and consults SO_ERROR only otherwise')
+    cls14 = [g for g in P.fns.values() if g.bname == 'booster::aio::basic_io_device::close' and g.params and g.body is not None]
+    ctx.require(len(cls14) == 1, 'C17.R14: basic_io_device::close(error_code&) not found')
+    cf = cls14[0]
+    cn14 = [i for i in cf.calls() if (cf.bcallee(i) or '') in ('booster::aio::basic_io_device::cancel', 'booster::aio::io_service::cancel_io_events')]
+    OWN = 'basic_io_device::owner_'
+    g_own = cf.gate_edges(lambda atom, pol: model.strip_targs(cf.ref_of(atom) or '').endswith(OWN) and pol is True)
+    ok14 = len(cn14) == 1
+    if ok14:
+        reach = cf.reachable_blocks(cut_edges=g_own)
+        ok14 = cf.point_of(cn14[0])[0] in reach
+        # and with ownership: still reached
+        g_nown = cf.gate_edges(lambda atom, pol: model.strip_targs(cf.ref_of(atom) or '').endswith(OWN) and pol is False)
+        ok14 = ok14 and cf.point_of(cn14[0])[0] in cf.reachable_blocks(cut_edges=g_nown)
+        # the descriptor is closed / forgotten only after the cancellation
+        later = [i for i in cf.calls() if 'close_file_descriptor' in (cf.callee(i) or '')] + q.field_writes(cf, 'basic_io_device::fd_')
+        ok14 = ok14 and all(not q.reaches(cf, i, cn14[0]) for i in later)
+    ctx.check(ok14, R14, 'basic_io_device::close:cancels-pending-waits-owner-or-not', 'close() does not reach cancel() for a device that does not own its descriptor (or forgets the descriptor first): a pending handler is never run', cf.where)
+    acs = [g for g in P.fns.values() if 'async_connector::operator()' in g.id and g.body is not None]
+    ctx.require(len(acs) == 1, 'C17.R14: async_connector::operator() not found')
+    ac = acs[0]
+    ep = q.param_by_index(ac, 0)
+    hcalls = [i for i in ac.calls() if ac.N(i)['k'] == 'CXXOperatorCallExpr' and ac.N(i).get('op') == '()' and 'callback' in (ac.callee(i) or '')]
+    direct = [i for i in hcalls if ac.ref_of(ac.N(i)['ch'][2]) == ep]
+    so = [i for i in ac.calls() if (ac.callee(i) or '').startswith('getsockopt')]
+    okc14 = len(direct) == 1 and len(so) == 1
+    why14 = 'the adapter does not have one hand-over of the wait\'s error and one SO_ERROR lookup'
+    if okc14:
+        def whole_cmp(atom):
+            n_ = ac.N(atom)
+            if n_['k'] != 'CXXOperatorCallExpr' or n_.get('op') not in ('!=', '=='):
+                return False
+            a_, b_ = n_['ch'][1], n_['ch'][2]
+            for x_, y_ in ((a_, b_), (b_, a_)):
+                if ac.ref_of(x_) == ep and any(r_.endswith('aio_error::select_failed') for r_ in ac.subtree_refs(y_)) and any(r_.endswith('aio_error_cat') for r_ in ac.subtree_refs(y_)):
+                    return True
+            return False
+        g_set = ac.gate_edges(lambda atom, pol: (ac.ref_of(atom) == ep or (ac.N(atom)['k'] in model.CALL_KINDS and 'operator bool' in (ac.callee(atom) or '') and ep in ac.subtree_refs(atom))) and pol is True)
+        g_unset = ac.gate_edges(lambda atom, pol: (ac.ref_of(atom) == ep or (ac.N(atom)['k'] in model.CALL_KINDS and 'operator bool' in (ac.callee(atom) or '') and ep in ac.subtree_refs(atom))) and pol is False)
+        g_other = ac.gate_edges(lambda atom, pol: whole_cmp(atom) and pol is (ac.N(atom)['op'] == '!='))
+        g_sf = ac.gate_edges(lambda atom, pol: whole_cmp(atom) and pol is (ac.N(atom)['op'] == '=='))
+        # every condition atom that mentions e is one of the two recognised forms
+        atoms_e = [a_ for a_ in ac.all_nodes() if ac.N(a_)['k'] in ('CXXOperatorCallExpr', 'CXXMemberCallExpr', 'BinaryOperator') and ep in ac.subtree_refs(a_) and a_ not in hcalls and
+                   not any(ac.contains(h_, a_) for h_ in hcalls) and (ac.N(a_).get('op') in ('==', '!=', '<', '>') or q.short_of(ac.callee(a_) or '') in ('category', 'value'))]
+        okc14 = bool(g_set) and bool(g_other) and ac.only_through(direct[0], g_set) and ac.only_through(direct[0], g_other) and all(whole_cmp(a_) for a_ in atoms_e) and \
+            ac.only_through(so[0], g_unset + g_sf)
+        why14 = 'the error of the wait is not handed to the handler for every error other than exactly select_failed (whole error code), or SO_ERROR is consulted after such an error'
+        if okc14:
+            # after the direct hand-over nothing else runs
+            okc14 = not q.reaches(ac, direct[0], so[0])
+            why14 = 'after handing on the error the adapter goes on to SO_ERROR and calls the handler again'
+    ctx.check(okc14, R14, 'async_connector:error-of-the-wait-handed-on-except-select_failed', why14, ac.where)
+    ctx.floor(R14, 2)
+
     # ---- R8 wake after enqueue
     wake_entries = [(g, 'post#%d' % k) for k, g in enumerate(sorted(P.by_bname.get(EL + '::post', []), key=lambda g: g.id))]
     wake_entries += [(P.fn(EL + '::stop'), 'stop'), (P.fn(EL + '::cancel_timer_event'), 'cancel_timer_event'), (P.fn(EL + '::set_timer_event'), 'set_timer_event')]
